@@ -538,7 +538,7 @@ func c10Jobs(thorough bool) []c10Job {
 	// (t) transform grid: every do / let chain over variables that the body binds (X), that only the head mentions (Y),
 	// that nothing mentions (Z), as group-by keys, as reducer arguments and as the variable a statement defines
 	jobs = append(jobs, c10Job{"transform grid", func(probe func(kind, input string)) {
-		keys := []string{"", "X", "Y", "Z", "X, Y", "X, Z", "X, X"}
+		keys := []string{"", "X", "Y", "Z", "X, Y", "X, Z", "X, X", "fn:list(X)", "fn:plus(X, 1)", "fn:pair(X, X), Y", "fn:list(X), fn:list(Y)", "/a", "1"}
 		defs := []string{"X", "Y", "Z", "C"}
 		reds := []string{"fn:count()", "fn:sum(X)", "fn:sum(Y)", "fn:sum(Z)", "fn:collect(X, Z)", "fn:max(C)"}
 		heads := []string{"foo(X)", "foo(Y)", "foo(X, C)", "foo(Y, C)", "foo(Z)", "foo(C)"}
